@@ -275,11 +275,10 @@ def _memcpy(ex, st, args, n):
     dst, src, size = args
     k = _const(size)
     if k is not None and k <= 64:
-        bs = [z3.Select(st.raw, src + BV(i, 64)) for i in range(k)]
-        r = st.raw
+        # (through the engine's reader/writer, so that reads of and through this frame's locals are resolved)
+        bs = [ex.load_raw(st, src + BV(i, 64) if i else src, 1) for i in range(k)]
         for i in range(k):
-            r = z3.Store(r, dst + BV(i, 64), bs[i])
-        st.raw = r
+            ex.store_raw(st, dst + BV(i, 64) if i else dst, bs[i], 1)
     else:
         a = z3.BitVec('a!mc', 64)
         old = st.raw
